@@ -399,6 +399,35 @@ def check_extern(case):
                         "extern-bound-output", "Python result %r; with outputs bound to %r expected probability %r, got %r\n%s"
                         % (result, outputs, want, res2, src2), sig="extern-bound-output:%s" % ("accept" if want else "reject")))
             classes.append("bound-checked")
+            if len(outs) >= 2:
+                # exactly ONE output bound by the caller, the others free: a matching value must succeed with the
+                # Python values for the free outputs, a different value must fail
+                feats.add("partially-bound-outputs")
+                for k in range(len(outs)):
+                    for delta, want in ((0, 1.0), (1, 0.0)):
+                        outputs = ["_"] * len(outs)
+                        outputs[k] = good[k] + delta
+                        src2 = program_source(case, path, outputs=outputs)
+                        res2 = plrun.run_problog(src2, keep_raw=True)
+                        if res2[0] == "resource":
+                            return Outcome(inconclusive=res2[1], features=sorted(feats))
+                        ok = res2[0] == "ok"
+                        if ok:
+                            live = [(t, p) for t, p in res2[1].items() if not plrun.close(p, 0.0)]
+                            if want == 0.0:
+                                ok = not live
+                            else:
+                                ok = len(live) == 1 and plrun.close(live[0][1], 1.0)
+                                if ok:
+                                    seen2 = live[0][0].args[len(live[0][0].args) - len(outs):]
+                                    ok = all(term_shape(t) in expected_images("int", r) for t, r in zip(seen2, good))
+                        if not ok:
+                            return Outcome(nontrivial=True, features=sorted(feats), sample=sample, failure=Failure(
+                                "extern-bound-output",
+                                "Python result %r; with output %d bound to %r and the others free expected %s, got %r\n%s"
+                                % (result, k, outputs[k], "the Python values with probability 1" if want else "failure", res2, src2),
+                                sig="extern-bound-output:partial-%s" % ("accept" if want else "reject")))
+                classes.append("partially-bound-checked")
         nontrivial = bool(ins) or any(_structured(r) for r in results)
         sample["python_result"] = repr(result)
         sample["seen"] = str(key)
